@@ -17,6 +17,14 @@ use std::time::Instant;
 
 // ------------------------------------------------------------------ the reference model
 
+static DIACRITICS: std::sync::OnceLock<Vec<char>> = std::sync::OnceLock::new();
+pub fn set_diacritics(d: &[char]) {
+    let _ = DIACRITICS.set(d.to_vec());
+}
+fn diacritics() -> &'static [char] {
+    DIACRITICS.get().map(|v| v.as_slice()).unwrap_or(&[])
+}
+
 #[derive(Clone, Debug)]
 pub enum TagRes {
     /// stage 0 = input words, stage k = words after entry k
@@ -28,6 +36,7 @@ pub enum TagRes {
 
 pub struct SeqModel {
     pub p: Project,
+    pub diacritics: Vec<char>,
     memo: BTreeMap<String, TagRes>,
 }
 
@@ -49,8 +58,8 @@ pub fn apply_filter(groups: &[Group], filter: &Option<(char, Vec<String>)>) -> V
 }
 
 impl SeqModel {
-    pub fn new(p: &Project) -> Self {
-        SeqModel { p: p.clone(), memo: BTreeMap::new() }
+    pub fn new(p: &Project, diacritics: &[char]) -> Self {
+        SeqModel { p: p.clone(), diacritics: diacritics.to_vec(), memo: BTreeMap::new() }
     }
     /// the project changed on disk (an edit step): forget every computed stage
     pub fn invalidate(&mut self) {
@@ -175,8 +184,17 @@ fn is_file(s: &Snap, p: &str) -> bool {
     matches!(s.get(p), Some(Some(_)))
 }
 
-/// every word of `words` re-reads as itself under the aliases of the next stage
-fn fixed_point(words: &[String], into: &[String], oracle: &mut Oracle) -> bool {
+/// Every word of `words` re-reads as itself under the aliases of the next stage, AND is spelled
+/// with plain cardinal letters only.  The second condition is what makes "staged == all at
+/// once" a fair demand (C10's precondition in a form that can be checked from outside): a
+/// rendering that needed the diacritic search, or a click (whose letters tokenise ambiguously
+/// next to other segments), can re-parse to a *different* segment with the same spelling --
+/// observed: `ʛʘ̪ʁɔʊ` after `[+clk] > [+dr]` -- and that is C09/C10's subject, not C20's.
+fn fixed_point(words: &[String], into: &[String], oracle: &mut Oracle, diacritics: &[char]) -> bool {
+    const CLICKS: [char; 6] = ['ʘ', 'ǀ', 'ǃ', 'ǁ', '‼', 'ǂ'];
+    if words.iter().any(|w| w.chars().any(|c| diacritics.contains(&c) || CLICKS.contains(&c))) {
+        return false;
+    }
     matches!(oracle.run(&Req { rules: vec![], words: words.to_vec(), into: into.to_vec(), from: vec![] }), Ans::Ok(v) if v == words)
 }
 
@@ -253,10 +271,10 @@ pub fn predict(snap: &Snap, inv: &Inv, answer_yes: bool, oracle: &mut Oracle, mo
                         if let TagRes::Stages(st) = model.stages(&c.name, oracle, probes) {
                             let (ci, _) = model.alias_of(c);
                             for s in &st[1..] {
-                                ok &= fixed_point(s, &ci, oracle);
+                                ok &= fixed_point(s, &ci, oracle, &model.diacritics);
                             }
                             // the first stage of the root reads the files with `into`; every later stage re-reads rendered words
-                            ok &= c.name == root.name || fixed_point(&st[0], &ci, oracle);
+                            ok &= c.name == root.name || fixed_point(&st[0], &ci, oracle, &model.diacritics);
                         } else {
                             ok = false;
                         }
@@ -630,7 +648,7 @@ fn note_probes(st: &mut Stats, p: &Project, inv: &Inv, e: &Expect, before: &Snap
 
 pub fn run_history(root: &str, scn: &mut Scn, oracle: &mut Oracle, st: &mut Stats) -> Option<Fail> {
     cli::write_tree(root, &scn.files, &scn.dirs);
-    let mut model = SeqModel::new(&scn.project);
+    let mut model = SeqModel::new(&scn.project, diacritics());
     let mut probes: BTreeMap<String, u64> = BTreeMap::new();
     let mut result = None;
     for i in 0..scn.invs.len() {
@@ -942,6 +960,7 @@ pub fn main_c20(tier_name: &str, seed: u64) -> i32 {
     let t0 = Instant::now();
     let tr = tier(tier_name);
     let d = Data::load();
+    set_diacritics(&d.diacritics);
     let known = Known::load();
     let scratch = Scratch::new("c20");
     let workers = proc::workers();
@@ -1123,6 +1142,7 @@ pub fn main_c20(tier_name: &str, seed: u64) -> i32 {
 }
 
 pub fn replay(doc: &Value, path: &str) -> i32 {
+    set_diacritics(&Data::load().diacritics);
     let scratch = Scratch::new("c20r");
     let seed = doc.get("verif_seed").and_then(|v| v.as_u64()).unwrap_or(1);
     let mut scn: Scn = serde_json::from_value(doc["scenario"].clone()).unwrap_or_else(|e| harness_error(&format!("bad replay: {e}")));
